@@ -927,7 +927,9 @@ class AbstractPriorModel(AbstractModel):
             # Use the name of the collection for configuration when a prior's name
             # is just a number (i.e. its position in a collection)
             if name.isdigit():
-                name = self.path_for_prior(prior_tuple.prior)[-2]
+                path = self.path_for_prior(prior_tuple.prior)
+                if len(path) > 1:
+                    name = path[-2]
 
             width_modifier = (
                 prior.width_modifier
